@@ -659,6 +659,42 @@ func TestC53(t *testing.T) {
 		}
 	}
 	c.Exhaustive("every function x sweep lengths x offset -64..+64 x capacity/len(dst) variants (calls, all shards)", idx)
+	// 1b. exact overlap (offset 0) and the neighbouring offsets for EVERY length 0..1100
+	// (all tail-length classes of the assembly), functions without public-key operations
+	idx1b := 0
+	for oi := range ops {
+		op := &ops[oi]
+		if len(op.lens) == len(slowLens) {
+			continue
+		}
+		for n := 0; n <= 1100; n++ {
+			if op.kind == ovStream && len(op.name) > 3 && op.name[:3] == "xts" && n%16 != 0 {
+				continue
+			}
+			for vi, off := range []int{0, 0, 1, -1} {
+				idx1b++
+				if !ev.Mine(idx1b) {
+					continue
+				}
+				cs := ovCase{op: op, n: n, off: off}
+				if op.kind == ovStream {
+					cs.capCls = "dst=len(src)"
+				} else if vi == 1 {
+					cs.dl, cs.capCls, cs.slack = 5, "cap=more", 1+n%23
+				} else {
+					cs.capCls = "cap=exact"
+				}
+				if op.hasAD {
+					cs.adMode, cs.adLen = "ad=disjoint", []int{0, 13, 20}[n%3]
+				}
+				runOn(&cs, func(what string) {
+					c.Violation(what, "")
+					t.Fatalf("VF-VIOLATION: property=C53 %s", what)
+				})
+			}
+		}
+	}
+	c.Exhaustive("stream/AEAD/secretbox/precomputed-box functions x every length 0..1100 x offsets {0, 0 with dst prefix, +1, -1} (calls, all shards)", idx1b)
 	// 2. AD placement sweep for the AEAD: AD offset -64..+64 relative to the appended output
 	idx2 := 0
 	for oi := range ops {
